@@ -4,7 +4,8 @@ cd "$(dirname "$0")/.."
 for s in "$@"; do
   for p in C01 C02 C03 C04 C05 C06 C07 C08 C09 C10 C11 C12 C13 C14 C15 C16 C17 C18 C19 C20; do
     out=$(VERIF_SEED=$s VERIF_EVIDENCE_DIR=/tmp/soak_ev timeout 1800 ./check $p 2>&1); rc=$?
-    if [ $rc -ne 0 ]; then echo "seed=$s $p rc=$rc"; echo "$out" | grep -E "rule=|VIOLATION|HARNESS" | cut -c1-300; fi
+    if [ $rc -ne 0 ]; then echo "seed=$s $p rc=$rc"; echo "$out" | grep -E "rule=|VIOLATION|HARNESS" | cut -c1-300
+      mkdir -p /tmp/soak_found; for f in $(echo "$out" | grep -o "replay=[^ ]*" | cut -d= -f2); do cp "$f" /tmp/soak_found/s$s-$(basename $f) 2>/dev/null; done; fi
   done
   echo "seed $s done"
 done
